@@ -816,7 +816,9 @@ func runC05(t *testing.T, c caseIn) (o obsOut) {
 			if i < 2*n {
 				j := i - n
 				d, amt := outOf(j)
-				lim := done[n-1-j].Res
+				// the per-hop maxima of the router are internal; a user performing the hops one by one gives
+				// only the first hop the maximum of the whole trade
+				lim := huge
 				if j == 0 {
 					lim = r.Lim
 				}
